@@ -301,6 +301,18 @@ mut("raw-text-tab-dropped", RT, '        return "\\t"', '        return ""', ["C
 
 MD = "mammoth/writers/markdown.py"
 
+# data tables the translator regenerates on every run (default style map, void tags, ignored elements, regexes)
+mut("table-heading2-maps-to-h3", "mammoth/options.py", "p.Heading2 => h2:fresh", "p.Heading2 => h3:fresh", ["C08"])
+mut("table-list-level2-without-ol-alternative", "mammoth/options.py", "p:unordered-list(2) => ul|ol > li > ul > li:fresh", "p:unordered-list(2) => ul > li > ul > li:fresh", ["C08"])
+mut("table-normal-not-fresh", "mammoth/options.py", "p[style-name='Normal'] => p:fresh", "p[style-name='Normal'] => p", ["C08"])
+mut("table-ordered-level3-is-unordered", "mammoth/options.py", "p:ordered-list(3) => ul|ol > li > ul|ol > li > ol > li:fresh", "p:ordered-list(3) => ul|ol > li > ul|ol > li > ul > li:fresh", ["C08"])
+mut("table-img-not-void", "mammoth/html/nodes.py", '_VOID_TAG_NAMES = set(["br", "hr", "img", "input"])', '_VOID_TAG_NAMES = set(["br", "hr", "input"])', ["C17", "C14"])
+mut("table-input-not-void", "mammoth/html/nodes.py", '_VOID_TAG_NAMES = set(["br", "hr", "img", "input"])', '_VOID_TAG_NAMES = set(["br", "hr", "img"])', ["C14", "C13"])
+mut("table-bookmarkend-not-ignored", "mammoth/docx/body_xml.py", '        "w:bookmarkEnd",\n', "", ["C16"])
+mut("table-anchor-regex-requires-one-space", "mammoth/docx/body_xml.py", """re.match(r'\\s*HYPERLINK\\s+\\\\l\\s+"([^"]*)"', instr_text)""", """re.match(r'\\s*HYPERLINK \\\\l "([^"]*)"', instr_text)""", ["C10"])
+mut("table-footnote-handler-as-endnote", "mammoth/docx/body_xml.py", '"w:footnoteReference": note_reference_reader("footnote"),', '"w:footnoteReference": note_reference_reader("endnote"),', ["C10", "C01"])
+mut("table-smarttag-as-pict", "mammoth/docx/body_xml.py", '        "w:smartTag": read_child_elements,', '        "w:smartTag": pict,', ["C01"])
+
 EXTRA = {"conversion-shared-note-references": ("mammoth/conversion.py", "\n_up_arrow = ", "\n_shared_note_references = []\n\n_up_arrow = ")}
 
 
